@@ -7,7 +7,7 @@ import ast
 from ..consteval import fold_module_name
 from ..core import Ctx, RuleResult, finding, short
 from ..model import AnalysisError, norm
-from ..rules import exc, sib
+from ..rules import exc, truthy, sib
 from ..tables import C18_BOUNDARY_OK, C18_INFEASIBLE, C18_SIB_EXCEPTIONS
 
 EXPLANATION = (
@@ -175,5 +175,9 @@ def run(ctx: Ctx):
         rule_twins(ctx),
         rule_hash_eq(ctx),
         rule_tables(ctx),
+        truthy.run_truthy(
+            p, "C18.5", [f"{COMMON}.AttrSpec.__set_foreground", f"{COMMON}.AttrSpec.__set_background"], r"^_parse_color_|^index$|^_true_to_256$", floor=2,
+            description="colour numbers (0 is a colour) returned by the parsers are distinguished from None by identity, never by truthiness",
+        ),
     ]
     return out
